@@ -146,7 +146,25 @@ def check_lanczos(A, v, m, out, cls, K, normA, horizon=None):
     return fails
 
 
-def check_arnoldi(A, v, m, out, cls, K, normA):
+def arnoldi_horizon(A, v, Q, kmax=1e5):
+    """
+    Modified Gram-Schmidt Arnoldi loses orthogonality like eps * kappa([v, A V_j]) (Bjorck, Paige 1992).
+    Returns the number of leading Arnoldi vectors for which that condition number stays below kmax,
+    computed from the re-orthogonalised reference basis Q.
+    """
+    k = Q.shape[1]
+    v0 = np.asarray(v, dtype=complex) / np.linalg.norm(v)
+    ok = 1
+    for j in range(1, k):
+        B = np.column_stack([v0, A @ Q[:, :j]])
+        sv = np.linalg.svd(B, compute_uv=False)
+        if sv[-1] <= 0 or sv[0] / sv[-1] > kmax:
+            break
+        ok = j + 1
+    return ok
+
+
+def check_arnoldi(A, v, m, out, cls, K, normA, horizon=None):
     fails = []
     H, V = out
     H = np.asarray(H)
@@ -168,6 +186,8 @@ def check_arnoldi(A, v, m, out, cls, K, normA):
         lead = min(K, k)
         if k < K:
             fails.append(('length', f'Krylov space has dimension {K} but only {k} vectors returned (m={m})'))
+    if horizon is not None:
+        lead = max(1, min(lead, horizon))
     Vl = V[:, :lead]
     Hl = H[:lead, :lead]
     sc = max(normA, 1e-300)
@@ -195,9 +215,10 @@ def check_arnoldi(A, v, m, out, cls, K, normA):
 def check_eigh_krylov(A, v, m, numeig, out, cls, K, normA, Q, kret=None, horizon=None):
     """
     A Hermitian. out = (w, u_ritz).  kret = number of Lanczos vectors the implementation produced.
-    When the routine ran past the exhaustion point on a rounding-noise direction (possible because
-    its breakdown threshold is absolute), the clauses that presuppose an orthonormal basis are not
-    judged: Paige's bounds do not cover a division by a noise-level beta.
+    When the routine ran past the exhaustion point (possible because its breakdown threshold is
+    absolute) it continues, after fix F6, on directions orthonormal to the Krylov space: every Ritz value
+    is still >= lambda_min (Cauchy interlacing for an orthonormal basis), but the lowest one may come from
+    outside the cyclic subspace, so "equals the smallest reachable eigenvalue" is not judged for that call.
     """
     fails = []
     w, U = out
@@ -216,7 +237,7 @@ def check_eigh_krylov(A, v, m, numeig, out, cls, K, normA, Q, kret=None, horizon
     if th0 > rq + 1e-12 * sc:
         fails.append(('ritz_upper', f'theta0={th0!r} > rayleigh={rq!r}'))
     continued = (cls == 'exhausted' and (kret is None or kret > K))
-    if cls != 'grey' and not continued and th0 < evals[0] - TOL * sc:
+    if cls != 'grey' and th0 < evals[0] - TOL * sc:
         fails.append(('ritz_lower', f'theta0={th0!r} < lambda_min={evals[0]!r}'))
     if cls in ('regular', 'regular_full') and (horizon is None or horizon >= m):
         k = min(len(w), U.shape[1])
